@@ -608,6 +608,44 @@ fn c17_units(tier: Tier) -> Vec<Unit> {
             }
         }));
     }
+    // ---- C2: free-running counter (no clear source): zero and equal compare values are inside the quantifier
+    {
+        let tcnts: Vec<u8> = if thorough { (0..=255u8).collect() } else { crate::hv::dom::K16.to_vec() };
+        let dom = format!(
+            "no counter-clear source selected (TCR in {{01, e1, c1, 21, e2}}): every TCORA value 0-255 x TCORB in {{TCORA (equal), 00, TCORA+1, ff}} x {} TCNT start values x the history elapse(9), elapse(255), 33 x 255 states, TCSR=00, elapse(200): a compare value of zero matches on the wrap H'FF -> H'00 together with the overflow, equal compare values match together",
+            tcnts.len()
+        );
+        units.push(Unit::new("free-running-compare-values", 256, &dom, move |ctx, chunk| {
+            let a = chunk as u8;
+            let mut bs: Vec<u8> = vec![a, 0x00, a.wrapping_add(1), 0xff];
+            bs.sort();
+            bs.dedup();
+            for &b in bs.iter() {
+                for &tcr in &[0x01u8, 0xe1, 0xc1, 0x21, 0xe2] {
+                    for &t in tcnts.iter() {
+                        let mut sys = TimerSys::new();
+                        let mut path = Vec::new();
+                        if !setup(ctx, &mut sys, tcr, (a, b, t), &mut path) {
+                            continue;
+                        }
+                        for act in [TAct::Elapse(9), TAct::Elapse(255), TAct::Long(33), TAct::Tcsr(0x00), TAct::Elapse(200)] {
+                            path.push(act);
+                            ctx.st.cases += 1;
+                            ctx.st.nontrivial += 1;
+                            if let Err(m) = sys.apply(&act) {
+                                let p: Vec<String> = path.iter().map(|x| x.text()).collect();
+                                ctx.custom_violation("c17", m, json!({"path": p}), json!(null), json!(null));
+                                break;
+                            }
+                        }
+                        if ctx.stop {
+                            return;
+                        }
+                    }
+                }
+            }
+        }));
+    }
     // ---- D: a clock that stays selected for more than 2^32 states
     {
         let divs: Vec<(u8, u64)> = if thorough { vec![(0x23, 8192), (0x22, 64), (0x21, 8)] } else { vec![(0x23, 8192), (0x22, 64)] };
@@ -694,7 +732,7 @@ pub fn c17(tier: Tier, _seed: u64) -> Prop {
         assumptions: vec![
             "reference is black-box: the phase is the set of residuals still consistent with everything observed since the clock was selected (empty set = violation: lost, extra or bunched ticks); the moment the selected compare match clears TCNT (matching count vs following count) is a second existential parameter".into(),
             "partition equivalence is decided on a second real timer that receives every elapse(n) one state at a time (the finest partition) and the 32/33 x 255 stretches in pieces of 7".into(),
-            "CKS 4-7 (external clock / cascade) suspends the oracle until a defined clock is selected again; TCORA != TCORB and both non-zero in every start combination".into(),
+            "CKS 4-7 (external clock / cascade) suspends the oracle until a defined clock is selected again; TCORA != TCORB and both non-zero in every start combination with a clear source; unit free-running-compare-values covers zero and equal compare values without a clear source".into(),
             "depth bound: 4 set-up writes + 3 (quick) / 4 (thorough) runtime actions over 26 actions for all 256 TCR values; + 5 / 6 actions over 13 actions for 24 TCR values".into(),
         ],
         units: c17_units(tier),
